@@ -30,7 +30,8 @@ S0(t) ==
     [prog |-> ProgOf(t), ss |-> t.ss, mode |-> t.mode,
      subs |-> [i \in DOMAIN SubEvents(t) |-> Rng(SubEvents(t)[i].keys)],
      cur  |-> [w \in 1..t.workers |-> 0],
-     inst |-> [c \in Comp |-> IF t.prog[c].seeded THEN SeedV(c) ELSE Absent],
+     inst |-> [c \in Comp |-> IF t.prog[c].seeded
+                                 THEN (IF t.prog[c].outc = "none" THEN NoneV ELSE SeedV(c)) ELSE Absent],
      missing |-> [c \in Comp |-> NoMiss]]
 
 InitFrom(t) ==
@@ -66,12 +67,21 @@ AttGuard(w, c) ==
     /\ c \notin AttemptedIn(cur[w])                                   \* AtMostOnce
     /\ c \in Graph => \A d \in DepSet(c) \cap Graph : d \in Attempted  \* DepsBefore
 
+(* "exactly the missing required dependencies and unsatisfied groups": the  *)
+(* report is compared as a set of dependencies and a set of groups; that the *)
+(* report is the same in every run (order included) is the "same" event.     *)
+GrpSets(mg)     == {Rng(mg[i]) : i \in DOMAIN mg}
+SameMiss(a, b)  == a.set = b.set /\ Rng(a.mr) = Rng(b.mr) /\ GrpSets(a.mg) = GrpSets(b.mg)
+                   /\ Len(a.mr) = Len(b.mr) /\ Len(a.mg) = Len(b.mg)
+SameVal(a, b)   == a.k = b.k /\ a.c = b.c /\ a.xs = b.xs /\ Rng(a.mr) = Rng(b.mr) /\ GrpSets(a.mg) = GrpSets(b.mg)
+                   /\ Len(a.mr) = Len(b.mr) /\ Len(a.mg) = Len(b.mg)
+
 AttOK ==
     /\ AttGuard(Ev.w, Ev.c)
     /\ LET c == Ev.c
            e == Eff(inst, c)
-       IN /\ e.v = Ev.v                                               \* Isolation / SeedsPreserved / MissingExact(rule)
-          /\ (IF e.m.set THEN e.m ELSE missing[c]) = Ev.m             \* MissingExact
+       IN /\ SameVal(e.v, Ev.v)                                       \* Isolation / SeedsPreserved / MissingExact(rule)
+          /\ SameMiss(IF e.m.set THEN e.m ELSE missing[c], Ev.m)      \* MissingExact
           /\ e.calls = Ev.calls                                       \* FiresIff / ArgBinding / OnlyGraphRuns
           /\ \A r \in Rng(Ev.recs) : RecAllowed(r, c)                 \* NothingElsewhere
 
@@ -82,17 +92,19 @@ EndOK(E) ==
          /\ r[2] \in HardFail => \E e \in E : e.by = c /\ e.kind = r[2] /\ e.el = r[1] /\ e.tb
          /\ (r[2] = "skip" /\ ss) => \E e \in E : e.by = c /\ e.kind = "skip" /\ e.el = r[1] /\ e.under = c
     /\ \A e \in E : e.kind # "skip" => <<e.el, e.kind>> \in RaisedBy(e.by)
-    /\ \A c \in Seeded : inst[c] = SeedV(c) /\ CallsOf(c) = {}
+    /\ \A c \in Seeded : inst[c] = SeedVal(c) /\ CallsOf(c) = {}
 
 (* the observed event is a step of DrEngine that keeps C01-C04 *)
 Accepts ==
     CASE Ev.ev = "sub" -> SubOK /\ ENABLED Take(Ev.w)
       [] Ev.ev = "att" -> AttOK
       [] Ev.ev = "end" -> EndOK(excs \cup Rng(Ev.recs))
+      [] Ev.ev = "same" -> Ev.a = Ev.b       \* two runs of one program (other schedule / driver / hash seed)
       [] OTHER -> FALSE
 
 Apply ==
     CASE Ev.ev = "sub" -> Take(Ev.w)
+      [] Ev.ev = "same" -> UNCHANGED vars
       [] Ev.ev = "att" ->
            LET c == Ev.c
                e == Eff(inst, c)
@@ -120,9 +132,9 @@ DiagAtt ==
              (IF Len(e.calls) # Len(Ev.calls)
                 THEN (IF Len(Ev.calls) > Len(e.calls) THEN "FiresIff.fired-but-should-not" ELSE "FiresIff.not-fired")
                 ELSE "ArgBinding")
-         ELSE IF e.v # Ev.v THEN
+         ELSE IF ~SameVal(e.v, Ev.v) THEN
              (IF c \in Seeded THEN "SeedsPreserved" ELSE IF e.v.k = "skipresp" \/ Ev.v.k = "skipresp" THEN "MissingExact.rule" ELSE "Isolation.value")
-         ELSE IF (IF e.m.set THEN e.m ELSE missing[c]) # Ev.m THEN "MissingExact"
+         ELSE IF ~SameMiss(IF e.m.set THEN e.m ELSE missing[c], Ev.m) THEN "MissingExact"
          ELSE IF \E r \in Rng(Ev.recs) : ~RecAllowed(r, c) THEN
              (LET r == CHOOSE r \in Rng(Ev.recs) : ~RecAllowed(r, c) IN
               IF r.kind = "skip" /\ ~ss THEN "SkipRecordedOnlyIfEnabled"
@@ -155,6 +167,9 @@ Diagnose ==
       [] Ev.ev = "sub" -> IF ~SubOK THEN "PartitionExact.split" ELSE "sub.worker-busy"
       [] Ev.ev = "end" -> DiagEnd
       [] Ev.ev = "escaped" -> "NoEscape"
+      [] Ev.ev = "same" -> "Confluence.runs-differ:" \o
+                           (IF Ev.a.inst # Ev.b.inst THEN "values"
+                            ELSE IF Ev.a.missing # Ev.b.missing THEN "missing-reports" ELSE "recorded-failures")
       [] OTHER -> "unknown-event"
 
 Advance ==
